@@ -906,65 +906,90 @@ async fn run_c10(sc: &Value, rec: Arc<Recorder>) -> Value {
     log("life", "-", "connected", json!({"ok": connected, "ms": connect_ms,
         "a": format!("{:?}", pair.a.peer_state().unwrap()), "b": format!("{:?}", pair.b.peer_state().unwrap())}));
 
-    // data channel: one message per direction, compared byte for byte
+    let rounds = if cfg.reneg == "none" { 1 } else { 2 };
     let mut dc_ok = json!({"A": true, "B": true});
-    if cfg.dc {
-        let open = connected && wait_until(Duration::from_secs(25), || pair.both_dc_open()).await;
-        if !open {
-            notes.push("data channel not open on both sides within 25 s".into());
-        }
-        for (from, to) in [(&pair.a, &pair.b), (&pair.b, &pair.a)] {
-            let msg = format!("c10-dc-from-{}-{}", from.label, sc["id"]).into_bytes();
-            let mut ok = false;
-            if open {
-                if let Some(pc) = from.try_pc() {
-                    let id = from.dc.lock().as_ref().map(|d| d.id).unwrap_or(0);
-                    log("app", &from.label, "dc_send", json!({"len": msg.len(), "h": rustrtc::verif::hash32(&msg)}));
-                    match tokio::time::timeout(Duration::from_secs(5), pc.send_data(id, &msg)).await {
-                        Ok(Ok(())) => {
-                            ok = wait_until(Duration::from_secs(5), || to.dc_msgs.lock().iter().any(|m| *m == msg)).await;
-                        }
-                        Ok(Err(e)) => notes.push(format!("send_data {}: {e}", from.label)),
-                        Err(_) => notes.push(format!("send_data {} did not return", from.label)),
-                    }
-                }
-            }
-            log("life", &to.label, "dc_delivery", json!({"ok": ok}));
-            dc_ok[to.label.as_str()] = json!(ok);
-        }
-    }
-
-    // media: per kind and direction, frames are sent until one arrives; its payload must be one that was sent
     let mut rtp_ok = json!({});
-    for (on, kind, kname) in [(cfg.audio, rustrtc::MediaKind::Audio, "Audio"), (cfg.video, rustrtc::MediaKind::Video, "Video")] {
-        if !on {
-            continue;
+    let mut reneg_ok = true;
+    let mut all_rounds_ok = true;
+    for round in 1..=rounds {
+        if round == 2 {
+            // renegotiation: a second offer/answer round on the established connection
+            let by = if cfg.reneg == "offerer" { cfg.offerer.clone() } else if cfg.offerer == "A" { "B".to_string() } else { "A".to_string() };
+            let r = tokio::time::timeout(Duration::from_secs(15), pair.renegotiate(&by)).await;
+            reneg_ok = matches!(r, Ok(Ok(())));
+            match r {
+                Ok(Ok(())) => {}
+                Ok(Err(e)) => notes.push(e),
+                Err(_) => notes.push("renegotiation did not finish within 15 s".into()),
+            }
+            let still = pair.both_connected();
+            log("life", "-", "reneg", json!({"ok": reneg_ok, "by": by, "still_connected": still}));
         }
-        for (from, to) in [(&pair.a, &pair.b), (&pair.b, &pair.a)] {
-            let mut sent: Vec<Vec<u8>> = vec![];
-            let mut ok = false;
-            let mut intact = true;
-            if connected {
-                let before = to.rtp_rx.lock().iter().filter(|(k, _)| k == kname).count();
-                let t1 = Instant::now();
-                let mut i = 0u32;
-                while t1.elapsed() < Duration::from_secs(6) {
-                    let payload = format!("c10-{}-{}-{}-{:04}-padpadpadpad", kname, from.label, sc["id"], i).into_bytes();
-                    from.send_media(kind, &payload, 1000 + i * 960);
-                    sent.push(payload);
-                    i += 1;
-                    tokio::time::sleep(Duration::from_millis(20)).await;
-                    let got: Vec<Vec<u8>> = to.rtp_rx.lock().iter().filter(|(k, _)| k == kname).skip(before).map(|(_, d)| d.clone()).collect();
-                    if !got.is_empty() {
-                        ok = true;
-                        intact = got.iter().all(|g| sent.iter().any(|s| s == g));
-                        break;
+        // data channel: one message per direction, compared byte for byte
+        dc_ok = json!({"A": true, "B": true});
+        if cfg.dc {
+            let open = connected && reneg_ok && wait_until(Duration::from_secs(25), || pair.both_dc_open()).await;
+            if !open {
+                notes.push("data channel not open on both sides within 25 s".into());
+            }
+            for (from, to) in [(&pair.a, &pair.b), (&pair.b, &pair.a)] {
+                let msg = format!("c10-dc-from-{}-{}-r{}", from.label, sc["id"], round).into_bytes();
+                let mut ok = false;
+                if open {
+                    if let Some(pc) = from.try_pc() {
+                        let id = from.dc.lock().as_ref().map(|d| d.id).unwrap_or(0);
+                        log("app", &from.label, "dc_send", json!({"len": msg.len(), "h": rustrtc::verif::hash32(&msg)}));
+                        match tokio::time::timeout(Duration::from_secs(5), pc.send_data(id, &msg)).await {
+                            Ok(Ok(())) => {
+                                ok = wait_until(Duration::from_secs(5), || to.dc_msgs.lock().iter().any(|m| *m == msg)).await;
+                            }
+                            Ok(Err(e)) => notes.push(format!("send_data {}: {e}", from.label)),
+                            Err(_) => notes.push(format!("send_data {} did not return", from.label)),
+                        }
                     }
                 }
+                log("life", &to.label, "dc_delivery", json!({"ok": ok, "round": round}));
+                dc_ok[to.label.as_str()] = json!(ok);
             }
-            log("life", &to.label, "rtp_delivery", json!({"kind": kname, "ok": ok, "intact": intact, "sent": sent.len()}));
-            rtp_ok[format!("{}{}", kname, to.label)] = json!(ok && intact);
         }
+
+        // media: per kind and direction, frames are sent until one arrives; its payload must be one that was sent
+        rtp_ok = json!({});
+        for (on, kind, kname) in [(cfg.audio, rustrtc::MediaKind::Audio, "Audio"), (cfg.video, rustrtc::MediaKind::Video, "Video")] {
+            if !on {
+                continue;
+            }
+            for (from, to) in [(&pair.a, &pair.b), (&pair.b, &pair.a)] {
+                let mut sent: Vec<Vec<u8>> = vec![];
+                let mut ok = false;
+                let mut intact = true;
+                if connected && reneg_ok {
+                    let before = to.rtp_rx.lock().iter().filter(|(k, _)| k == kname).count();
+                    let t1 = Instant::now();
+                    let mut i = 0u32;
+                    while t1.elapsed() < Duration::from_secs(6) {
+                        let payload = format!("c10-{}-{}-{}-r{}-{:04}-padpadpad", kname, from.label, sc["id"], round, i).into_bytes();
+                        from.send_media(kind, &payload, 1000 + i * 960);
+                        sent.push(payload);
+                        i += 1;
+                        tokio::time::sleep(Duration::from_millis(20)).await;
+                        let got: Vec<Vec<u8>> = to.rtp_rx.lock().iter().filter(|(k, _)| k == kname).skip(before).map(|(_, d)| d.clone()).collect();
+                        if !got.is_empty() {
+                            ok = true;
+                            intact = got.iter().all(|g| sent.iter().any(|s| s == g));
+                            break;
+                        }
+                    }
+                }
+                log("life", &to.label, "rtp_delivery", json!({"kind": kname, "ok": ok, "intact": intact, "sent": sent.len(), "round": round}));
+                rtp_ok[format!("{}{}", kname, to.label)] = json!(ok && intact);
+            }
+        }
+
+
+        let dcr = dc_ok["A"] == true && dc_ok["B"] == true;
+        let rtpr = rtp_ok.as_object().map(|m| m.values().all(|v| v == true)).unwrap_or(true);
+        all_rounds_ok &= dcr && rtpr;
     }
 
     quiesce(Duration::from_millis(100), Duration::from_secs(2)).await;
@@ -990,7 +1015,8 @@ async fn run_c10(sc: &Value, rec: Arc<Recorder>) -> Value {
         "comp": "life", "ev": "end", "kind": "c10", "id": sc["id"], "hit": true, "cfg": cfg.to_json(),
         "signal_ok": signal_ok, "connected": connected, "connect_ms": connect_ms,
         "peer_a": peer_a, "peer_b": peer_b, "reason_a": reason_a, "reason_b": reason_b,
-        "dc_ok": dc_ok, "rtp_ok": rtp_ok, "all_dc": all_dc, "all_rtp": all_rtp,
+        "dc_ok": dc_ok, "rtp_ok": rtp_ok, "all_dc": all_dc, "all_rtp": all_rtp, "reneg_ok": reneg_ok,
+        "all_rounds_ok": all_rounds_ok,
         "released": released, "notes": notes,
     })
 }
